@@ -205,6 +205,7 @@ func (vm *VM) exec(pc bytecode, vars []Variable, cont Cont, args []Term, astack 
 	)
 	for ok {
 		op, pc = pc[0], pc[1:]
+		verifOnInstr(op.opcode)
 		switch opcode, operand := op.opcode, op.operand; opcode {
 		case opGetConst:
 			arg, args = args[0], args[1:]
@@ -236,13 +237,14 @@ func (vm *VM) exec(pc bytecode, vars []Variable, cont Cont, args []Term, astack 
 		case opPop:
 			args, astack = astack[len(astack)-1], astack[:len(astack)-1]
 		case opEnter:
-			break
+			verifOnHeadDone(env)
 		case opCall:
 			pi := operand.(procedureIndicator)
 			return vm.Arrive(pi.name, args, func(env *Env) *Promise {
 				return vm.exec(pc, vars, cont, nil, nil, env, cutParent)
 			}, env)
 		case opExit:
+			verifOnHeadDone(env)
 			return cont(env)
 		case opCut:
 			return cut(cutParent, func(context.Context) *Promise {
@@ -284,6 +286,7 @@ func (vm *VM) exec(pc bytecode, vars []Variable, cont Cont, args []Term, astack 
 		}
 	}
 
+	verifOnHeadDone(nil)
 	return Bool(false)
 }
 
